@@ -85,7 +85,7 @@ class Aggregate:
                 self.caps += 1
             return
         self.families[job["family"]] += 1
-        self.family_cpu[job["family"].split("/")[0] + "/" + job["family"].split("/")[-1]] += res.get("cpu", 0.0)
+        self.family_cpu[job["family"].split("/")[0].split("~")[0] + "/" + job["family"].split("/")[-1]] += res.get("cpu", 0.0)
         self.states.update(res["states"])
         self.transitions += res["transitions"]
         self.instances += res["instances"]
